@@ -181,6 +181,12 @@ def szCmd (l : Limits) (ctor : String) (a : List Int) : Option SzR :=
     some (andThen (str x) fun p => andThen (repeatString 2 y l.maxString) fun q =>
       andThen (stringJoin p q l.maxString) fun _ => andThen (str r) fun rl =>
         replaceFamily p (q / 2) rl l.maxString.toNat)
+  | "replace1", [x, y, r] =>
+    -- one character pattern: x characters are copied one by one, then y replacements of r characters, each step guarded
+    some (andThen (str x) fun p => andThen (str y) fun q => andThen (stringJoin p q l.maxString) fun _ =>
+      andThen (str r) fun rl =>
+        replaceFinish l.maxString.toNat 0
+          (replaceRun l.maxString.toNat (List.replicate p RStep.copy1 ++ List.replicate q (RStep.repl rl)) 0))
   -- copies and parts of operands (mirrors harness/mudlib/c04/sizes.c)
   | "copy_array", [n] => some (andThen (allocateArray n l.maxArray) sameSize)
   | "copy_mapping", [n] => some (andThen (mapInsertMany 0 n.toNat l.maxMapping) sameSize)
